@@ -127,7 +127,10 @@ func (s *Session) RemoveTopic(new []byte) {
 func (s *Session) GetTopics() [][]byte {
 	s.mtx.Lock()
 	defer s.mtx.Unlock()
-	return s.topics
+	// a copy: the caller iterates it without holding the lock
+	out := make([][]byte, len(s.topics))
+	copy(out, s.topics)
+	return out
 }
 func (s *Session) ExtendDeadline() {
 	s.conn.SetDeadline(time.Now().Add(2 * time.Duration(s.keepaliveInterval) * time.Second))
